@@ -30,16 +30,21 @@ class C15(C06):
         plural = ("p0 = { $n ->\n [one] one {$n}\n [few] few\n *[other] other {$n}\n }\n"
                   "p1 = { NUMBER($n, type: \"ordinal\") ->\n [one] st\n [two] nd\n [few] rd\n *[other] th\n }\n"
                   "p2 = { NUMBER($n, minimumFractionDigits: 1) ->\n [one] one\n *[other] other\n }\n"
-                  "p3 = { $c } { CUSTOM(\"q\") } { ARGS($n, $c) }\n")
+                  "p3 = { $c } { CUSTOM(\"q\") } { ARGS($n, $c) }\n"
+                  "p4 = { $c } and { $d }\n")
         g = resgen.GR(rng, depth=rng.choice([1, 2]))
         res = plural + g.resource()
         th = rng.choice([2, 4, 8])
         cfgbase = "iso=%d;tr=%s;fm=%s;fl=conc;loc=%s" % (rng.randrange(2), rng.choice(["none", "upper"]),
                                                          rng.choice(["none", "numbr"]), rng.choice(["en", "en-US"]))
         reqs = []
-        for m in ["p0", "p1", "p2", "p3"] + resgen.MSGS:
+        for m in ["p0", "p1", "p2", "p3", "p4", "p4"] + resgen.MSGS:
             n = rng.choice(["i1", "i2", "i3", "i11", "i21", "n1/1", "t" + hx("1.0"), "i0", "i5"])
-            reqs.append("%s:~:%s=%s&%s=c%s" % (hx(m), hx("n"), n, hx("c"), hx("cv")))
+            # custom values: plain, and ones stringified through the shared formatter memoizer by a Memoizable
+            # that fails to construct for some tags (requested repeatedly, from all threads)
+            cval = rng.choice(["c" + hx("cv"), "m" + hx("ok1"), "m" + hx("bad1"), "m" + hx("bad2"), "m" + hx("ok2")])
+            dval = rng.choice(["m" + hx("bad1"), "m" + hx("ok1"), "c" + hx("d")])
+            reqs.append("%s:~:%s=%s&%s=%s&%s=%s" % (hx(m), hx("n"), n, hx("c"), cval, hx("d"), dval))
         rng.shuffle(reqs)
         body = "a:%s %s %s" % (hx(res), ",".join(resgen.FUNCS), ",".join(reqs))
         return "fmt %s;th=%d %s | %s;th=1 %s" % (cfgbase, th, body, cfgbase, body)
